@@ -210,8 +210,8 @@ func scanKnown(src string) []string {
 				if isPunct(p, "!") || isPunct(nx, "?") || isPunct(p, "(") && isPunct(nx, ")") {
 					found["K13"] = true
 				}
-				if isPunct(nx, ")") {
-					// last operand of a parenthesised condition / group (not a call argument)
+				if isPunct(nx, ")") && (isPunct(p, ",") || isPunct(p, "(")) {
+					// whole last operand of a parenthesised condition / group (not a call argument)
 					depth := 0
 					for k := i + 1; k >= 0; k-- {
 						u := toks[k]
@@ -362,7 +362,7 @@ func scanKnown(src string) []string {
 						}
 					}
 				}
-				if segStart < k && !(at(i+1).nl) {
+				if segStart < k && !(at(i + 1).nl) {
 					s := segStart
 					for isPunct(at(s), "(") {
 						s++
@@ -756,7 +756,7 @@ func nonCanonicalNumber(s string) bool {
 	return true // any fraction/exponent spelling is treated as suspicious
 }
 
-// emptyStringValue: "" '' or only line continuations.
+// emptyStringValue: "" ” or only line continuations.
 func emptyStringValue(lit string) bool {
 	if len(lit) < 2 {
 		return false
